@@ -28,10 +28,11 @@ EXTENDS Integers, Sequences, FiniteSets, TLC
 
 \* ---- label domains and their classification: "ok" | "bad" | "any"
 
-TopicL   == {"c1", "c70", "punct", "len0", "len71", "len140", "len10000", "space", "slash", "ctrl", "utf8", "trailnl", "nul", "utf8_70b"}
-TopicCls(l)   == IF l \in {"c1", "c70", "punct"} THEN "ok" ELSE "bad"
+TopicL   == {"c1", "c70", "punct", "len0", "len71", "len140", "len10000", "space", "slash", "ctrl", "utf8", "trailnl", "nul", "utf8_70b",
+             "caret", "bracket", "backslash", "backtick", "at", "brace", "colon", "plus", "upperlower"}
+TopicCls(l)   == IF l \in {"c1", "c70", "punct", "upperlower"} THEN "ok" ELSE "bad"
 MonikerL == TopicL
-MonikerCls(l) == IF l \in {"c1", "c70", "punct", "len0"} THEN "ok" ELSE "bad"
+MonikerCls(l) == IF l \in {"c1", "c70", "punct", "len0", "upperlower"} THEN "ok" ELSE "bad"
 DescL    == {"len0", "len1", "len4999", "len5000", "len5001", "len10000", "mb5000", "mb5001", "mb_5000runes", "ctrl"}
 DescCls(l)    == IF l \in {"len5001", "len10000", "mb5001", "mb_5000runes"} THEN "bad" ELSE "ok"
 KeyL     == {"len0", "len1", "len69", "len70", "len71", "len5000", "bin70", "bin71"}
